@@ -46,12 +46,14 @@ inductive V where
                                                -- call ended in
   | decoded (d : Serialize.Decoded)            -- the policy `Policy.__init__` builds from decoded properties
   | bytes (b : Backends.Bytes)                 -- a serialized policy as Redis holds it
+  | rhash (h : Backends.RHash)                 -- what `hgetall` answers: field -> bytes, in the client's order
   | rworld (sr : Backends.Ser) (h : Backends.RHash) (raised : Option Store.Out)
                                                -- what the methods of the Redis storage act on: the serializer, the hash
   | mworld (c : Backends.Coll) (raised : Option Store.Out)
                                                -- what the methods of the MongoDB storage act on: the collection (a document
                                                -- stands for the policy it encodes)
   | mdoc (u : Store.Uid) (p : Store.Pol)       -- a document prepared from / found for a policy
+  | mcursor (docs : Store.St)                  -- a cursor over found documents
   | pager (ga : Int → Int → Option Store.St)   -- any storage, seen through its `get_all(limit, offset)` (`none`: it raises)
   | alog (audits : List AuditRec) (decisions : List Bool)
                                                -- what the guard writes: the audit records and the decision-log records
@@ -86,7 +88,9 @@ def truth : V → Bool
   | .pager _ => true
   | .mworld _ _ => true
   | .mdoc _ _ => true
+  | .mcursor _ => true
   | .bytes b => !b.isEmpty
+  | .rhash h => !h.isEmpty
   | .rworld _ _ _ => true
   | .decoded _ => true
 
@@ -267,6 +271,8 @@ def items : V → Option (List V)
   | .py (.str cs) => some (cs.map fun c => V.py (.str [c]))
   | .set xs => some (xs.map V.py)
   | .pols l => some (l.map fun (x : Store.Uid × Store.Pol) => V.polv x.1 x.2 true)
+  | .rhash h => some (h.map fun (x : Store.Uid × Backends.Bytes) => V.py (.str x.1))      -- iterating a dict: its keys
+  | .mcursor docs => some (docs.map fun (x : Store.Uid × Store.Pol) => V.mdoc x.1 x.2)
   | _ => Option.none
 
 /-- `for x in xs: BODY` followed by `REST`: the body of one iteration receives what comes after it (the next
@@ -810,12 +816,34 @@ def hdelM (key w : M) (k : V → V → M) : M :=
       k (.py (.int (if (Backends.dictGet u h).isSome then 1 else 0))) (.rworld sr (Backends.dictDel u h) Option.none)
     | _, _ => raiseM
 
+/-- `self.client.hgetall(collection)` -/
+def hgetallM (w : M) (k : V → V → M) : M :=
+  bindM w fun w => match w with
+    | .rworld sr h Option.none => k (.rhash h) (.rworld sr h Option.none)
+    | _ => raiseM
+
+/-- `data.items()` / `dict(pairs)` on what `hgetall` answered: the same field -> bytes pairs -/
+def rhashItemsM (a : M) : M := bindM a fun x => match x with | .rhash h => .ok (.rhash h) | _ => raiseM
+def callDictM (a : M) : M := bindM a fun x => match x with | .rhash h => .ok (.rhash h) | _ => raiseM
+
+/-- `itertools.islice(pairs, start, stop)` for non-negative bounds -/
+def isliceM (a lo hi : M) : M :=
+  bindM a fun x => bindM lo fun i => bindM hi fun j => match x, i, j with
+    | .rhash h, .py (.int i), .py (.int j) => if 0 ≤ i && 0 ≤ j then .ok (.rhash (Backends.islice h i.toNat j.toNat)) else raiseM
+    | _, _, _ => raiseM
+
+/-- `data[uid]` on such a dictionary -/
+def rhashGetM (a key : M) : M :=
+  bindM a fun x => bindM key fun ky => match x, ky with
+    | .rhash h, .py (.str u) => (match Backends.dictGet u h with | some b => .ok (.bytes b) | Option.none => raiseM)
+    | _, _ => raiseM
+
 /-- `raise X` in a method of the Redis storage: the method ends, the world records the exception
 (`PolicyExistsError`; anything re-raised from a handler reads as "the storage refused") -/
 def raiseRedisM (exc : String) (w : M) : M :=
   bindM w fun w => match w with
     | .rworld sr h Option.none =>
-      .ok (.rworld sr h (some (if exc == "PolicyExistsError" then .existsErr else .rejected)))
+      .ok (.rworld sr h (some (if exc == "PolicyExistsError" then .existsErr else if exc == "ValueError" then .valueError else .rejected)))
     | _ => raiseM
 
 /-- `try: BODY except Exception: HANDLER` where the handler raises: an exception in the body (before any effect: the arguments of a
@@ -865,10 +893,19 @@ def deleteOneM (key w : M) (k : V → M) : M :=
     | .py (.str u), .mworld coll Option.none => k (.mworld (Backends.dictDel u coll) Option.none)
     | _, _ => raiseM
 
+/-- `self.collection.find(limit=l, skip=s, sort=[('_id', ASCENDING)])`: a cursor (limit 0 means "no limit") -/
+def findPageM (limit skip w : M) (k : V → V → M) : M :=
+  bindM limit fun l => bindM skip fun s => bindM w fun w => match l, s, w with
+    | .py (.int l), .py (.int s), .mworld coll Option.none =>
+      if 0 ≤ l && 0 ≤ s then k (.mcursor (Backends.mongoFind coll l.toNat s.toNat)) (.mworld coll Option.none) else raiseM
+    | _, _, _ => raiseM
+
 /-- `raise PolicyExistsError(...)` in a method of the MongoDB storage -/
 def raiseMongoM (exc : String) (w : M) : M :=
   bindM w fun w => match w with
-    | .mworld coll Option.none => if exc == "PolicyExistsError" then .ok (.mworld coll (some .existsErr)) else raiseM
+    | .mworld coll Option.none =>
+      if exc == "PolicyExistsError" then .ok (.mworld coll (some .existsErr))
+      else if exc == "ValueError" then .ok (.mworld coll (some .valueError)) else raiseM
     | _ => raiseM
 
 /-! ### `Policy.from_json`: the decoded properties as a local dictionary -/
